@@ -1,7 +1,7 @@
 """C03 — handler results and failures are reported faithfully to the frontend caller."""
 from .fe import FeFamily
 
-PROPS_MODULES = ["C03", "C03Roundtrip"]
+PROPS_MODULES = ["C03", "C03Roundtrip", "FeRecv"]
 RULE = ("family `fe` (srv mode): every reply-bearing operation and every acknowledged set-operation with scripted handler outcomes "
         "(success values over the 64-bit lattice, with/without returned file, config data of right and wrong length, failures), "
         "REPLY_ACK negotiated or not; the real request server closes the connection when handle_request fails (as VhostUserDaemon "
